@@ -239,15 +239,20 @@ structure EvmOut where
 /-- The EVM is a parameter: `evm msg world refund gas`. -/
 abbrev Evm := Msg → World → Nat → Nat → EvmOut
 
-def evmConv (evm : Evm) : Converter := fun m w refund avail initial =>
-  -- a call bumps the sender's nonce *before* running the EVM; a creation leaves it to `evm.Create`
-  let w1 := if m.f.to.isSome then w.setNonce m.sender (((w.get m.sender).nonce + 1) % U64) else w
-  let o := evm m w1 refund avail
+/-- a call bumps the sender's nonce *before* running the EVM; a creation leaves it to `evm.Create` -/
+def callWorld (m : Msg) (w : World) : World :=
+  if m.f.to.isSome then w.setNonce m.sender (((w.get m.sender).nonce + 1) % U64) else w
+
+/-- what `TransitionDb` returns for a given EVM outcome -/
+def evmConvOut (o : EvmOut) (initial : Nat) : ConvOut :=
   if o.vmerr = .insufficientBalance then
     { world := o.world, refund := o.refund, avail := o.gasLeft, reported := 0, failed := false, err := some .insufficientBalance }
   else
     { world := o.world, refund := o.refund, avail := o.gasLeft, reported := gasUsedOf initial o.gasLeft,
       failed := o.vmerr != .none, err := none }
+
+def evmConv (evm : Evm) : Converter := fun m w refund avail initial =>
+  evmConvOut (evm m (callWorld m w) refund avail) initial
 
 /-- `evm.Call` to an address without code that is not a precompile (a plain transfer), and
 `evm.Create` with empty init code, as far as nonces and balances go:
